@@ -104,7 +104,7 @@ class C17(core.Check):
                                        'neg:file-label/include-after-local-label', 'neg:file-label/include-after-org',
                                        'neg:file-label/include-nested', 'class:symbol-spelled-like-a-word-of-the-include-line',
                                        'symbol-from:define', 'symbol-from:config', 'symbol-from:cmdline',
-                                       'class:file-names-differing-in-letter-case-only', 'neg:main-file-again/relative', 'neg:main-file-again/absolute', 'neg:main-file-again/symlinked-directory']}
+                                       'class:file-names-differing-in-letter-case-only', 'dirs:same-directory-under-another-spelling', 'neg:main-file-again/relative', 'neg:main-file-again/absolute', 'neg:main-file-again/symlinked-directory']}
 
     def metamorphic(self, rng, nest_p=0.5, prefer_mute=0):
         g = None
@@ -141,6 +141,15 @@ class C17(core.Check):
         for d in dirs:
             if d != '.':
                 argv += ['-I', d]
+        self._nm = getattr(self, '_nm', 0) + 1
+        if self._nm % 3 == 0:
+            # the same directory named twice under different spellings is one directory (also the main file's own)
+            extra_ = [['-I', '.'], ['-I', './'], ['-I', '{SCRATCH}']][(self._nm // 3) % 3]
+            for d in dirs:
+                if d != '.' and (self._nm // 3) % 2:
+                    extra_ += ['-I', './' + d + '/']
+            argv += extra_
+            tags.add('dirs:same-directory-under-another-spelling')
         img = layout.image(g.res.M, 0, None, 0)
         tags |= {t for t in g.tags if t.startswith(('org:', 'zone-switch'))}
         return {'runs': [{'files': fl, 'argv': argv, 'probes': ['steps', 'files'], 'step_limit': 3_000_000},
